@@ -312,7 +312,9 @@ func (cmd *mainCmd) Run(args []string) error {
 		if !ok {
 			if opts.Print {
 				if _, err := cmd.Stdout.Write(content); err != nil {
-					return err
+					log.Printf("%s: failed: %v", filename, err)
+					errors = append(errors, err)
+					continue
 				}
 			}
 			log.Printf("%s: skipped", filename)
